@@ -3,7 +3,7 @@ CONSTANTS
     EpochOrderStrict = FALSE
     CacheSound = FALSE
     MaxAlter = 1
-    TamperFields = {"resign", "prev", "epoch", "nextAvk", "nextParams"}
+    TamperFields = {"resign", "prev", "nextAvk", "nextParams"}
     MsgModes = {"r"}
     ForgeEpochs = {2, 3, 4}
     Forge2Pars = {"q"}
